@@ -87,7 +87,7 @@ def generate(seed, tier):
     if fmt == "fixed":
         # values may already carry (part of) their padding
         pools["n"][0].append("7 ")
-        pools["t"][0].append("x ")
+        pools["t"][0].extend(["x ", " x"])  # blanks in front are part of the value, blanks behind part of the padding
     rows = []
     for _ in range(rng.randint(0, 8)):
         row = []
